@@ -988,7 +988,7 @@ cleanup:
     lydctx->parse_opts = prev_parse_opts;
     lydctx->int_opts = prev_int_opts;
     free(val);
-    lyd_free_tree(child);
+    lyd_free_siblings(child);
     if (rc && (!(lydctx->val_opts & LYD_VALIDATE_MULTI_ERROR) || (rc != LY_EVALID))) {
         lyd_free_tree(*node);
         *node = NULL;
